@@ -147,7 +147,10 @@ fn run(ctx: &mut Ctx) {
             let blocks = *ctx.rng.pick(&[4_096usize, 65_535, 65_536, 65_537, 131_072]);
             let vlen = 16 * blocks;
             let attr = *ctx.rng.pick(&[7u16, 11, 26, 8]);
-            let secret = val::secret(&mut ctx.rng);
+            // short secrets here: every block hashes the whole secret, and 10^5 blocks times a
+            // 64 KiB secret is gigabytes of MD5 for one case
+            let mut secret = val::secret(&mut ctx.rng);
+            secret.truncate(64);
             let mut rv = [0u8; 4];
             rv.copy_from_slice(&ctx.rng.bytes(4));
             let declared = *ctx.rng.pick(&[6u16, 7, 20, 100, 1022, 1023, 1024, 0xffff, 5]);
